@@ -508,7 +508,11 @@ def scenario_config(sess, rng, r, kind, confs, perm, label, history=False):
     for i in perm:
         info, rq = reqs[i]
         cf = confs[i]
-        el = S.conf_elem('aggr' if kind == 'sign' else 'ext', 2, **{k: v for k, v in cf.items() if v is not None})
+        # (parent URIs are not part of the consolidation the property describes; some configurations carry them so that this path runs at all:
+        # the list moves from the received configuration into the consolidated one)
+        par = [['ksi+tcp://parent-%d.example:3332' % i], ['http://a.example/x', 'http://b.example/y'], [], []][(i + len(label)) % 4]
+        r.count('ha_configs_with_parent_uris' if par else 'ha_configs_without_parent_uris')
+        el = S.conf_elem('aggr' if kind == 'sign' else 'ext', 2, parents=par, **{k: v for k, v in cf.items() if v is not None})
         pdu = S.wrap_v2(S.AGGR_RESP_V2 if kind == 'sign' else S.EXT_RESP_V2, [el], KEY)
         c('net_push %d %s' % (info['fd'], pdu.hex()))
         ha.tick()
